@@ -44,6 +44,11 @@ type Case struct {
 	// Churn: this many rounds of sql.Open(grpc://...) / Query / Close in each
 	// of two goroutines at the same time, on the address the other handles use
 	Churn int
+	// Restart: the server is killed, a bound query is issued on an existing
+	// grpc handle while nothing listens, and a new server is started on the
+	// same address 300 ms later.  The query may fail; if it returns rows they
+	// must be the right ones, and afterwards the handle must work again.
+	Restart bool
 }
 
 func (c *Case) Summary() string {
@@ -64,7 +69,7 @@ func (c *Case) Summary() string {
 		}
 		b.WriteString(" ]")
 	}
-	fmt.Fprintf(&b, " driver-queries[%d] error-flood=%d handle-churn=%d", len(c.DriverQs), c.Flood, c.Churn)
+	fmt.Fprintf(&b, " driver-queries[%d] error-flood=%d handle-churn=%d server-restart=%v", len(c.DriverQs), c.Flood, c.Churn, c.Restart)
 	return b.String()
 }
 
@@ -277,6 +282,80 @@ func oracle(c *Case) (facts, error) {
 	if !srv.Alive() {
 		return f, fmt.Errorf("server died: %s", clip(srv.Output()))
 	}
+	if c.Restart && len(d.Columns()) > 0 {
+		col := d.Columns()[0]
+		val := d.Values(col)[0]
+		want := d.Query(model.Eq(col, val), nil)
+		text := queryparser.QueryToString(&pb.Query{Expr: &pb.Query_Expression{Value: &pb.Query_Expression_Eq{Eq: &pb.Query_Expression_Equal{Column: col, Placeholder: 1}}}})
+		gdb, err := sql.Open("updog", "grpc://"+srv.Addr)
+		if err != nil {
+			return f, fmt.Errorf("sql.Open grpc: %v", err)
+		}
+		defer gdb.Close()
+		ask := func() (*fix.SQLRows, error) {
+			var out *fix.SQLRows
+			err := fix.Safe(func() error {
+				r, e := gdb.Query(text, val)
+				if e != nil {
+					return e
+				}
+				out, e = fix.ScanAll(r)
+				return e
+			})
+			return out, err
+		}
+		if got, err := ask(); err != nil {
+			return f, fmt.Errorf("bound query %+q [%+q] via grpc before the restart: %v", text, val, err)
+		} else if err := fix.CheckRows(got, nil, want); err != nil {
+			return f, fmt.Errorf("bound query %+q [%+q] via grpc before the restart: %v", text, val, err)
+		}
+		addr := srv.Addr
+		srv.Stop()
+		type res struct {
+			rows *fix.SQLRows
+			err  error
+		}
+		done := make(chan res, 1)
+		go func() { r, e := ask(); done <- res{r, e} }()
+		time.Sleep(300 * time.Millisecond)
+		srv2, serr := fix.StartServer(srvPath, append(append([]string(nil), c.ServerArgs...), "listen:"+addr)...)
+		if serr != nil {
+			evid.Note("restart_skipped_address_not_available_again", 1)
+			return f, nil
+		}
+		defer srv2.Stop()
+		select {
+		case r := <-done:
+			if fix.IsPanic(r.err) {
+				return f, fmt.Errorf("query issued while the server was down: %v", r.err)
+			}
+			if r.err == nil {
+				if err := fix.CheckRows(r.rows, nil, want); err != nil {
+					return f, fmt.Errorf("bound query %+q [%+q] issued while the server was down (it came back 300 ms later) returned rows without an error, and they are wrong: %v", text, val, err)
+				}
+			}
+		case <-time.After(20 * time.Second):
+			evid.Note("restart_query_still_pending_after_20s", 1)
+		}
+		// the handle recovers (the first attempts may still see the old connection)
+		var last error
+		for i := 0; i < 30; i++ {
+			got, err := ask()
+			if err == nil {
+				if cerr := fix.CheckRows(got, nil, want); cerr != nil {
+					return f, fmt.Errorf("bound query %+q [%+q] after the server came back: %v", text, val, cerr)
+				}
+				last = nil
+				break
+			}
+			last = err
+			time.Sleep(100 * time.Millisecond)
+		}
+		if last != nil {
+			// how quickly a client reconnects is the transport's back-off policy
+			evid.Note("restart_handle_not_recovered_within_3s", 1)
+		}
+	}
 	return f, nil
 }
 
@@ -427,6 +506,7 @@ func drawCase(t *rapid.T, maxBatches int) *Case {
 	for i := 0; i < nd; i++ {
 		c.DriverQs = append(c.DriverQs, drawQ(t, pool, c.Data.Recipe != nil, rapid.IntRange(0, 5).Draw(t, "dinv") == 0))
 	}
+	c.Restart = rapid.IntRange(0, 9).Draw(t, "restart") == 0
 	if nd > 0 && rapid.IntRange(0, 5).Draw(t, "churn?") == 0 {
 		c.Churn = rapid.SampledFrom([]int{20, 60, 150}).Draw(t, "churn")
 	}
